@@ -102,14 +102,24 @@ func Match(query *AddressBookQuery, ao *AddressObject) (matched bool, err error)
 }
 
 func matchPropFilter(prop PropFilter, ao *AddressObject) (bool, error) {
-	// TODO: this only matches first field, there could be multiple
-	field := ao.Card.Get(prop.Name)
-	if field == nil {
+	fields := ao.Card[prop.Name]
+	if len(fields) == 0 {
 		return prop.IsNotDefined, nil
 	} else if prop.IsNotDefined {
 		return false, nil
 	}
 
+	// The filter matches if any of the properties of that name does
+	for _, field := range fields {
+		ok, err := matchPropFilterField(prop, field)
+		if err != nil || ok {
+			return ok, err
+		}
+	}
+	return false, nil
+}
+
+func matchPropFilterField(prop PropFilter, field *vcard.Field) (bool, error) {
 	// TODO: handle carddav.PropFilter.Params.
 	if len(prop.TextMatches) == 0 {
 		return true, nil
